@@ -1,7 +1,7 @@
 // UNIT v9.flowsetbody -- v9::FlowSetBody::parse, verbatim from src/variable_versions/v9.rs
 // C06: cache transition; C07: unknown id => Err(Verify), cache unchanged.
-// R5: the two `extend(iter.map(..))` statements are replaced by contracted stubs (Verus has no
-// iterator-adapter support); their effect is cross-checked by the bounded harness B.v9.template_insert.
+// The two `extend(iter.map(..))` statements are replaced by the loop that defines them (R29: insert every pair in
+// order); an `entry(k).or_insert_with(|| v);` statement, should one appear, by its definition (R28).
 //@ include prelude.rs
 //@ include v9_types.rs
 verus! {
@@ -12,16 +12,14 @@ pub open spec fn insert_all(m: Map<u16, Template>, ts: Seq<Template>) -> Map<u16
 pub open spec fn insert_all_o(m: Map<u16, OptionsTemplate>, ts: Seq<OptionsTemplate>) -> Map<u16, OptionsTemplate> decreases ts.len() {
     if ts.len() == 0 { m } else { insert_all_o(m, ts.drop_last()).insert(ts.last().template_id, ts.last()) }
 }
-// R5 stubs: `map.extend(ts.iter().map(|t| (t.template_id, t.clone())))` == insert each in order (later wins)
-#[verifier::external_body]
-pub fn vf_extend_templates(m: &mut HashMap<u16, Template>, ts: &Vec<Template>)
-    ensures final(m)@ == insert_all(old(m)@, ts@)
-{ unimplemented!() }
-#[verifier::external_body]
-pub fn vf_extend_options_templates(m: &mut HashMap<u16, OptionsTemplate>, ts: &Vec<OptionsTemplate>)
-    ensures final(m)@ == insert_all_o(old(m)@, ts@)
-{ unimplemented!() }
-
+proof fn lemma_take_step_t(ts: Seq<Template>, k: int)
+    requires 0 <= k < ts.len(),
+    ensures ts.take(k + 1).drop_last() =~= ts.take(k), ts.take(k + 1).last() == ts[k],
+{}
+proof fn lemma_take_step_o(ts: Seq<OptionsTemplate>, k: int)
+    requires 0 <= k < ts.len(),
+    ensures ts.take(k + 1).drop_last() =~= ts.take(k), ts.take(k + 1).last() == ts[k],
+{}
 impl Templates {
     #[verifier::external_body]
     fn parse<'a>(i: &'a [u8]) -> (r: IResult<&'a [u8], Templates>) { unimplemented!() }
@@ -68,8 +66,15 @@ impl FlowSetBody {
 //@ fn src/variable_versions/v9.rs - /impl FlowSetBody/ parse
 //@   result: r
 //@   ensures: v9_body_post(*old(parser), *final(parser), id, r)
-//@   opaque "parser.templates.extend(": vf_extend_templates(&mut parser.templates, &templates.templates);
-//@   opaque "parser.options_templates.extend(": vf_extend_options_templates(&mut parser.options_templates, &options_templates.templates);
+//@   prerules: R29 R28
+//@   forloop 0: it0 | invariant parser.templates@ == insert_all(old(parser).templates@, templates.templates@.take(it0.index@ as int)),
+//@           parser.options_templates == old(parser).options_templates, it0.index@ <= templates.templates@.len()
+//@   forend 0: proof { lemma_take_step_t(templates.templates@, it0.index@ as int); }
+//@   afterfor 0: proof { assert(templates.templates@.take(templates.templates@.len() as int) =~= templates.templates@); }
+//@   forloop 1: it1 | invariant parser.options_templates@ == insert_all_o(old(parser).options_templates@, options_templates.templates@.take(it1.index@ as int)),
+//@           parser.templates == old(parser).templates, it1.index@ <= options_templates.templates@.len()
+//@   forend 1: proof { lemma_take_step_o(options_templates.templates@, it1.index@ as int); }
+//@   afterfor 1: proof { assert(options_templates.templates@.take(options_templates.templates@.len() as int) =~= options_templates.templates@); }
 //@ end
 }
 
